@@ -288,6 +288,28 @@ func runC02(w *World, tier string) (bool, interface{}) {
 			w.Stats.Probe("byz-round-ready-consistent")
 		}
 	}
+	// a later key generation among some of the same participants, on the same machines:
+	// the key material of the round finished first stays what it was (and what was announced)
+	if byz < 0 && nReady == n && n >= 3 && !w.Failed() && w.Tape.Bool(1, 3, "laterRound") {
+		sub := members[:n-1]
+		t2 := t
+		if t2 > len(sub) {
+			t2 = len(sub)
+		}
+		w.Advance(2e9)
+		if round2, rep2 := c.StartDKG(w.Tape.Choose(len(sub), "proposer2"), t2, sub); rep2.OK() && round2 != round {
+			c.L.RunUntil(func() bool { return c.AllInState(round2, StIdle, sub) || c.AnyCancelled(round2, sub) }, 400*n)
+			c.L.Quiesce(6)
+			if c.AllInState(round2, StIdle, sub) && !w.Failed() {
+				w.Stats.Fault("multi-round")
+				checkKeyMaterial(w, round2, sub, t2, "C02")
+				if !w.Failed() {
+					checkKeyMaterial(w, round, members, t, "C02")
+					w.Stats.Probe("earlier-round-rechecked-after-a-later-one")
+				}
+			}
+		}
+	}
 	if byz < 0 && nReady != n && !w.Failed() {
 		w.Stats.Probe("honest-dkg-incomplete")
 	}
